@@ -565,19 +565,15 @@ func checkLineReader(c *Ctx, p *core.Prog) {
 		}
 		c.R.Check(ok, "R19.6", "readFileLines: the scanner's token limit is raised to at least MaxInt32 before scanning", p.Pos(scanner.Pos()), why, why)
 	}
-	// the accumulate statement: string concatenation whose left operand is the phi of `lines`
-	var acc *ssa.BinOp
-	for _, b := range fn.Blocks {
-		for _, in := range b.Instrs {
-			if bo, ok := in.(*ssa.BinOp); ok && bo.Op == token.ADD && bo.Type().String() == "string" {
-				if _, isPhi := bo.X.(*ssa.Phi); isPhi {
-					acc = bo
-				}
-			}
+	// the accumulate site: where the scanned line (scanner.Text()) is consumed
+	var acc ssa.Instruction
+	for _, call := range core.CallsIn(fn) {
+		if core.StaticCalleeName(call.Common()) == "(*bufio.Scanner).Text" || core.StaticCalleeName(call.Common()) == "(*bufio.Scanner).Bytes" {
+			acc = call
 		}
 	}
 	if acc == nil || scanCall == nil {
-		c.R.Undecided("R19.6", "readFileLines: accumulate statement", p.Pos(fn.Pos()), "cannot locate the statement that appends a line to the result")
+		c.R.Undecided("R19.6", "readFileLines: accumulate statement", p.Pos(fn.Pos()), "cannot locate the statement that takes the scanned line")
 		return
 	}
 	header := scanCall.Block()
@@ -645,12 +641,27 @@ func checkLineReader(c *Ctx, p *core.Prog) {
 		}
 	}
 	c.R.Check(okCnt, "R19.6", "readFileLines: the line counter starts at 0 and is incremented exactly once per scanned line", p.Pos(acc.Pos()), "i = phi(0, i+1) at the Scan loop header, compared after the increment", "the counter compared with startLine/endLine is not `number of lines scanned so far`")
-	// the text accumulated is scanner.Text() + "\n"
+	// the scanned line is followed by exactly one newline: "\n" concatenated or written in the same block
 	okText := false
-	if inner, ok := acc.Y.(*ssa.BinOp); ok && inner.Op == token.ADD {
-		if s, isS := core.ConstString(inner.Y); isS && s == "\n" && isCallTo(inner.X, "(*bufio.Scanner).Text") {
-			okText = true
+	for _, in := range acc.Block().Instrs {
+		switch x := in.(type) {
+		case *ssa.BinOp:
+			if sv, isS := core.ConstString(x.Y); isS && sv == "\n" && x.Op == token.ADD && x.X == acc.(ssa.Value) {
+				okText = true
+			}
+		case *ssa.Call:
+			n := core.StaticCalleeName(&x.Call)
+			if strings.HasSuffix(n, ").WriteString") && len(x.Call.Args) == 2 {
+				if sv, isS := core.ConstString(x.Call.Args[1]); isS && sv == "\n" {
+					okText = true
+				}
+			}
+			if (strings.HasSuffix(n, ").WriteByte") || strings.HasSuffix(n, ").WriteRune")) && len(x.Call.Args) == 2 {
+				if k, isK := core.ConstInt(x.Call.Args[1]); isK && k == '\n' {
+					okText = true
+				}
+			}
 		}
 	}
-	c.R.Check(okText, "R19.6", "readFileLines: the accumulated text is the scanned line plus a newline", p.Pos(acc.Pos()), "lines += scanner.Text() + \"\\n\"", "the text appended is not scanner.Text() + \"\\n\"")
+	c.R.Check(okText, "R19.6", "readFileLines: the accumulated text is the scanned line plus a newline", p.Pos(acc.Pos()), "scanner.Text() followed by \"\\n\"", "the scanned line is not followed by a newline in the accumulated text")
 }
